@@ -73,6 +73,11 @@ def build_pool(seed: int, tier: str):
     add("probe-low", "*=0x128000\nlb_p:\n.dl lb_p\n*=0x058123\n.dl lb_p\n*=0x81fffe\nlb_q:\n.dl lb_q, lb_q\n", "low", entries=all_entries, probes=["lb_p", "lb_q"])
     add("probe-high", "*=0xd28000\nlb_p:\n.dl lb_p\n*=0x41fffe\nlb_q:\n.dl lb_q, lb_q\n", "high", entries=all_entries, probes=["lb_p", "lb_q"])
     add("probe-unmapped-in-low", "*=0x700000\n.db 1\n", "low", entries=("mem", "file_ips"))
+    add("probe-unmapped-in-high", "*=0x808000\n.db 1\n", "high", entries=("mem", "file_ips", "cli"))
+    add("probe-unmapped-in-high-after-code", "*=0xC08000\n.db 1\n*=0x208000\n.db 2\n", "high", entries=("mem", "cli"))
+    add("probe-unmapped-in-low2", "*=0x008000\n.db 1\n", "low2", entries=("mem", "file_ips"))
+    add("valid-low2", "*=0x818000\nlb_v:\n.dl lb_v\n*=0xfe8000\n.db 3\n", "low2", entries=("mem", "file_sfc"))
+    add("valid-high-ram-reloc", "*=0x418000\n.db 1\n@=0x7e2000\nlb_r:\n.dl lb_r\n", "high", entries=("mem", "cli"))
     add("defines-shared", "k_shared := 5\nk_eq = 7\n.macro m_shared(p_sx) {\n.db p_sx, 0xaa\n}\n.scope sc_shared {\n*=0x008000\nlb_s:\nm_shared(k_shared)\n}\n.dl sc_shared.lb_s\n", "low", entries=all_entries)
     add("uses-shared-undefined", "*=0x008000\n.db k_shared\n", "low", entries=("mem", "file_ips", "cli"))
     add("uses-macro-undefined", "*=0x008000\nm_shared(1)\n", "low", entries=("mem", "file_sfc"))
